@@ -1,0 +1,42 @@
+#ifndef VERIFTRACE_H
+#define VERIFTRACE_H
+
+/*
+ * Verification hook (inert unless the environment variable WHATSHAP_VERIF_DPTRACE names a file).
+ *
+ * When enabled, the two column-wise DP tables append one line per event of their
+ * column store ("<table> <event> <column> <columns>"): begin/end of a run, a column
+ * being computed and stored, a stored column being read, a stored column being freed.
+ * Nothing in whatshap reads this file; it exists so that external checkers can validate
+ * the store/free/recompute schedule of recorded executions.
+ */
+
+#include <cstdio>
+#include <cstdlib>
+
+namespace veriftrace {
+
+inline FILE* sink() {
+	static bool initialised = false;
+	static FILE* file = nullptr;
+	if (!initialised) {
+		initialised = true;
+		const char* path = std::getenv("WHATSHAP_VERIF_DPTRACE");
+		if (path != nullptr && path[0] != 0) {
+			file = std::fopen(path, "a");
+		}
+	}
+	return file;
+}
+
+inline void event(const char* table, const char* what, long column, long columns) {
+	FILE* f = sink();
+	if (f != nullptr) {
+		std::fprintf(f, "%s %s %ld %ld\n", table, what, column, columns);
+		std::fflush(f);
+	}
+}
+
+}
+
+#endif
